@@ -303,6 +303,15 @@ def _compute_integral_ir(
             _blockmap.append(dofmap)
         blockmap = tuple(_blockmap)
 
+        if (
+            TensorPart.from_str(p["part"]) == TensorPart.diagonal
+            and len(blockmap) == 2
+            and blockmap[0] != blockmap[1]
+        ):
+            # Only blocks that pair a dof with itself contribute to the diagonal
+            # (not e.g. '+'/'-' blocks or different components of a vector sub-element)
+            continue
+
         block_is_uniform = all(tr.is_uniform for tr in trs)
 
         # Collect relevant restrictions to identify blocks correctly
